@@ -25,6 +25,7 @@ CELLS = ([("both-permeate", e) for e in BOTH_ENTRY]
          + [("uniquac-without-constants-2", e) for e in MODEL_ENTRY]
          + [("curve-without-data", "constructor")]
          + [("single-experiment-without-Ea", "activation-energy"), ("single-experiment-without-Ea", "permeance-elsewhere"),
+            ("single-experiment-without-Ea", "loaded-permeance-elsewhere"),
             ("no-experiment-Ea-none", "solver")])
 
 
@@ -35,6 +36,8 @@ def strategy(draw, cells):
     c = draw(procs.process_case(kinds=("nonideal-iso",) if heavy else ("ideal-iso",), models=("NRTL", "UNIQUAC") if cls == "both-permeate" else ("NRTL",),
                                 removal=(1e-4, 0.05), max_steps=3, modes=("temperature",), t_low=200.0))
     c["cell"] = [cls, entry]
+    if entry == "loaded-permeance-elsewhere":  # membrane tables name their components: built-in mixture
+        c["mixture"] = {"builtin": draw(st.sampled_from(gen.BUILTIN_MIXTURES))}
     # permeate values far from equilibrium so that the VALID single-condition variants return (construction, not rejection)
     c["perm"] = {"mode": "temperature", "T": draw(gen.uniform(200.0, c["T"] - 40.0)), "p": None}
     c["pp_both"] = draw(st.one_of(st.just(0.0), gen.loguniform(1e-4, 1e-2), gen.loguniform(1e-4, 1e-2)))  # 0 kPa IS a stated pressure
@@ -143,6 +146,27 @@ def _entry(case, s, entry, tp, pp, mdl, mix=None, pv=None):
     raise AssertionError(entry)
 
 
+def _load_membrane(mem, mixture_name):
+    import os
+    import shutil
+    import tempfile
+
+    n1, n2 = mixture_name.split("_")
+    d = tempfile.mkdtemp(prefix="pvverif-c19-")
+    try:
+        mdir = os.path.join(d, "MEMBRANE")
+        os.makedirs(mdir)
+        with open(os.path.join(mdir, "ideal_experiments.csv"), "w") as fh:
+            fh.write("name,temperature,component,activation_energy,permeance,units,comment\n")
+            for e in mem.ideal_experiments.experiments:
+                fh.write("%s,%r,%s,%s,%r,%s,c\n" % (e.name, float(e.temperature), n1 if e.name.startswith("e1") else n2,
+                                                   "" if e.activation_energy is None else repr(float(e.activation_energy)),
+                                                   float(e.permeance.value), e.permeance.units))
+        return call(build.Membrane.load, mdir)
+    finally:
+        shutil.rmtree(d, ignore_errors=True)
+
+
 def _rejected(out, what):
     if not is_raised(out):
         raise Violation("%s was accepted and returned %r instead of raising" % (what, out if not hasattr(out, "partial_fluxes") else type(out).__name__))
@@ -233,6 +257,12 @@ def check(case):
                     ok, bad = call(m_ok.calculate_activation_energy, c_lone), call(m_bad.calculate_activation_energy, c_lone)
                 elif entry == "permeance-elsewhere":
                     ok, bad = call(m_ok.get_permeance, t_other, c_lone), call(m_bad.get_permeance, t_other, c_lone)
+                elif entry == "loaded-permeance-elsewhere":
+                    # the same two membranes as directories (ideal_experiments.csv, blank cell = no stated activation energy)
+                    l_ok, l_bad = _load_membrane(m_ok, case["mixture"]["builtin"]), _load_membrane(m_bad, case["mixture"]["builtin"])
+                    if is_raised(l_ok) or is_raised(l_bad):
+                        raise Discard("membrane directory could not be loaded")
+                    ok, bad = call(l_ok.get_permeance, t_other, c_lone), call(l_bad.get_permeance, t_other, c_lone)
                 else:
                     comp = build.composition(s.x, s.basis)
                     pv_ok, pv_bad = build.Pervaporation(membrane=m_ok, mixture=s.mix), build.Pervaporation(membrane=m_bad, mixture=s.mix)
